@@ -357,13 +357,19 @@ class CallMixin:
     s = q.q.seq
     if name == 'get_nowait':
       if self.branch(s.n <= 0):
+        self.seq += 1
+        self.last_cond_check = self.seq
         self.raise_('queue.Empty')
       return self.list_method(q.q, 'popleft', [], {})
     if name == 'put_nowait':
       if self.branch(z3.And(q.cap > 0, s.n >= q.cap)):
+        self.seq += 1
+        self.last_cond_check = self.seq
         self.raise_('queue.Full')
       return self.list_method(q.q, 'append', [a[0]], {})
     if name == 'empty':
+      self.seq += 1
+      self.last_cond_check = self.seq
       return VBool(s.n <= 0)
     if name == 'qsize':
       return VInt(s.n)
@@ -379,8 +385,12 @@ class CallMixin:
   def lock_release(self, lk, from_with=False):
     if lk.held <= 0:
       self.raise_('RuntimeError', VStr('release unlocked lock'))
+    for h in self.release_hooks:     # what other threads may observe from now on must be complete
+      h(self, lk)
     lk.held -= 1
     lk.events.append('release')
+    self.seq += 1
+    lk.last_release = self.seq
 
   def lock_method(self, lk, name, a, k):
     gk = f'{lk.name}.free'
@@ -440,6 +450,11 @@ class CallMixin:
       if lk.held <= 0:
         self.raise_('RuntimeError', VStr('cannot wait on un-acquired lock'))
       lk.events.append('wait')
+      if lk.recheck and not self.spec_mode:
+        # monitor rule (no lost wake-up): the condition waited for was tested after this lock was last
+        # released - otherwise a notification sent in between is missed
+        self.oblige(f'{self.cur_name}/wait-after-recheck[{lk.name}]', z3.BoolVal(self.last_cond_check > lk.last_release),
+                    'monitor-discipline', {'text': f'the condition is re-tested after the last release of {lk.name} and before wait()'})
       self.on_wait(lk)
       ok = self.fresh_bool('wait_ok')
       tmo = k.get('timeout', a[0] if a else NONE)
